@@ -62,6 +62,7 @@ func VerifC16Sorted() {
 			return nil
 		})
 		vndAssert(err == nil, "transaction failed")
+		vndKnown("KF-merge-reorder", w.mergeReorder())
 		w.commitModel()
 		if late && t == 0 {
 			vndAssert(w.c.CreateSortIndex("sorted", "a") == nil, "CreateSortIndex failed")
